@@ -484,6 +484,7 @@ def run(ctx):
     small_cl = os.path.join(d, "small4_clusters.tsv")
     _tables.write_clusters(small_cl, {"m0": 0, "m1": 0, "m2": 1, "m3": 2}, per_sample=["S0", "S1"])
     traces.append(("smallclu", make_trace(os.path.join(d, "small_clustered.pkl.gz"), small4_in, 2, ctx.seed + 3, 5, 11, "binomial", cluster_file=small_cl), True, 60))
+    traces.append(("sixchains", make_trace(os.path.join(d, "sixchains.pkl.gz"), small_in, 6, ctx.seed + 4, 2, 11, "binomial"), True, 40))
     if not ctx.quick:
         traces.append(("clustered", make_trace(os.path.join(d, "clustered.pkl.gz"), example, 2, ctx.seed + 2, 4, 101, "beta-binomial", cluster_file=clusters, proposal="fully-adapted"), True, 60))
     ctx.exhaustive = True
